@@ -106,7 +106,9 @@ fn gen_multi_error_program(ch: &mut Ch) -> String {
             // Several unexpected symbols.
             let mut s = String::from("x = 1 ");
             for _ in 0..2 + ch.pick(5) {
-                s.push_str(["$ ", "@\n", "§ é ", "` ", "🙂 "][ch.pick(5)]);
+                // Single code points, and clusters of several code points (flags, ZWJ sequences,
+                // combining marks, skin tones): the latter are reported piecewise.
+                s.push_str(["$ ", "@\n", "§ é ", "` ", "🙂 ", "🇺🇸 ", "👨\u{200D}👩\u{200D}👧 ", "$\u{301}\u{302} ", "👍🏽\n", "🇩🇪🇫🇷 ", "%^ "][ch.pick(11)]);
             }
             s.push_str("\nx\n");
             s
